@@ -300,3 +300,107 @@ Proof.
     + destruct (G l SLive (or_introl E)) as [X|[X|X]]; try discriminate; exact X.
     + destruct (G l SLive (or_intror E)) as [X|[X|X]]; try discriminate; exact X.
 Qed.
+
+(* ---------------- state shared by a whole family of encoders ---------------- *)
+(* Not everything an encoder holds is pooled.  clone() copies the POINTER to the EncoderConfig: the
+   logger's long-lived encoder, the per-call clone EncodeEntry works on, and every encoder derived
+   through With / Named / Clone look at one configuration (EncodeLevel, EncodeTime, EncodeDuration,
+   EncodeCaller, EncodeName, NewReflectedEncoder, LineEnding, ConsoleSeparator, the keys); and
+   EncodeEntry / Clone / writeContext run ON the long-lived encoder itself, whose fields every call
+   of the logger sees.  The translator lists, per method of the encoders, the assignments it makes to
+   such family-wide state (gen/c08_poolfacts.go: an assignment whose target is reached through the
+   configuration pointer; in the methods that run on a long-lived encoder also an assignment to, or
+   a mutating call on, the receiver). *)
+Record sharedfact := {
+  sf_fn : string;               (* "jsonEncoder.EncodeEntry" *)
+  sf_entry : bool;              (* runs on a long-lived encoder of the family: the receiver is shared too *)
+  sf_cfg_writes : list string;  (* assignments through the *EncoderConfig all relatives point to *)
+  sf_recv_writes : list string  (* sf_entry only: assignments to / mutating calls on the receiver *)
+}.
+Definition sf_writes (f : sharedfact) : list string := (sf_cfg_writes f ++ sf_recv_writes f)%list.
+(* the check: no per-call code writes family-wide state *)
+Definition shared_readonly (l : list sharedfact) : bool :=
+  forallb (fun f => match sf_writes f with [] => true | _ => false end) l.
+
+(* Generic semantics.  The family-wide state is a store of named locations; a per-call PATH (one
+   method of one member of the family, on one kind of input) produces its output from the store and
+   its input, and leaves a list of assignments in the store.  A history is any sequence of calls by
+   any members. *)
+Section Family.
+  Variables V I O : Type.
+  Definition fstore := string -> V.
+  Definition sset (f : string) (v : V) (s : fstore) : fstore := fun g => if String.eqb g f then v else s g.
+  Record path := { p_name : string; p_out : fstore -> I -> O; p_writes : fstore -> I -> list (string * V) }.
+  Definition apply_writes (ws : list (string * V)) (s : fstore) : fstore :=
+    fold_left (fun s fv => sset (fst fv) (snd fv) s) ws s.
+  Definition pstep (p : path) (i : I) (s : fstore) : fstore := apply_writes (p_writes p s i) s.
+  Fixpoint frun (h : list (path * I)) (s : fstore) : fstore :=
+    match h with [] => s | (p, i) :: t => frun t (pstep p i s) end.
+  (* the output of call (p, i) after the history h, started in store s *)
+  Definition fobserve (h : list (path * I)) (s : fstore) (p : path) (i : I) : O := p_out p (frun h s) i.
+
+  (* the path is (an execution of) a listed function and assigns only what the facts list for it *)
+  Definition conforms (facts : list sharedfact) (p : path) : Prop :=
+    exists f, In f facts /\ sf_fn f = p_name p /\
+              forall s i fv, In fv (p_writes p s i) -> In (fst fv) (sf_writes f).
+
+  Lemma readonly_no_writes facts p : shared_readonly facts = true -> conforms facts p ->
+    forall s i, p_writes p s i = [].
+  Proof.
+    intros Hro [f [Hin [_ Hw]]] s i.
+    destruct (p_writes p s i) as [|fv l] eqn:W; [reflexivity|]. exfalso.
+    assert (X : In (fst fv) (sf_writes f)) by (apply (Hw s i); rewrite W; left; reflexivity).
+    unfold shared_readonly in Hro. rewrite forallb_forall in Hro. specialize (Hro f Hin).
+    destruct (sf_writes f); [exact X|discriminate Hro].
+  Qed.
+
+  (* soundness of the check: whatever the members of the family did, the family-wide state is what
+     the constructor left *)
+  Theorem shared_sound facts : shared_readonly facts = true ->
+    forall h, Forall (fun pi => conforms facts (fst pi)) h -> forall s, frun h s = s.
+  Proof.
+    intros Hro h. induction h as [|[p i] h IH]; intros Hh s; [reflexivity|].
+    inversion Hh as [|x l Hp Hl]; subst. cbn [frun]. unfold pstep.
+    rewrite (readonly_no_writes facts p Hro Hp). cbn [apply_writes fold_left]. apply IH. exact Hl.
+  Qed.
+
+  (* ... hence the output of a call is the same after any two histories of the family *)
+  Theorem shared_history_independent facts : shared_readonly facts = true ->
+    forall h1 h2, Forall (fun pi => conforms facts (fst pi)) h1 -> Forall (fun pi => conforms facts (fst pi)) h2 ->
+    forall s p i, fobserve h1 s p i = fobserve h2 s p i.
+  Proof.
+    intros Hro h1 h2 H1 H2 s p i. unfold fobserve.
+    rewrite (shared_sound facts Hro h1 H1 s), (shared_sound facts Hro h2 H2 s). reflexivity.
+  Qed.
+End Family.
+Arguments p_name {V I O}.
+Arguments p_out {V I O}.
+Arguments p_writes {V I O}.
+Arguments frun {V I O}.
+Arguments fobserve {V I O}.
+Arguments conforms {V I O}.
+
+Theorem shared_sound_both (V I O : Type) facts : shared_readonly facts = true ->
+  forall (h1 h2 : list (path V I O * I)),
+  Forall (fun pi => conforms facts (fst pi)) h1 -> Forall (fun pi => conforms facts (fst pi)) h2 ->
+  forall s, frun h1 s = s /\ forall p i, fobserve h1 s p i = fobserve h2 s p i.
+Proof.
+  intros Hro h1 h2 H1 H2 s. split; [apply (shared_sound V I O facts Hro h1 H1)|].
+  intros p i. apply (shared_history_independent V I O facts Hro h1 h2 H1 H2).
+Qed.
+
+(* ... and the check is not vacuous: a path that assigns ONE location of the family-wide state a value
+   it does not hold yet (EncodeEntry's fallback storing LowercaseLevelEncoder in EncodeLevel), and whose
+   output reads that location, gives different outputs for the identical call before and after itself *)
+Theorem shared_write_leaks {V I : Type} (f : string) (v : V) (s : fstore V) (i : I) : s f <> v ->
+  let w := {| p_name := "w"; p_out := fun st _ => st f; p_writes := fun _ _ => [(f, v)] |} in
+  conforms [{| sf_fn := "w"; sf_entry := true; sf_cfg_writes := [f]; sf_recv_writes := [] |}] w /\
+  shared_readonly [{| sf_fn := "w"; sf_entry := true; sf_cfg_writes := [f]; sf_recv_writes := [] |}] = false /\
+  fobserve [(w, i)] s w i <> fobserve [] s w i.
+Proof.
+  intros Hne w. split; [|split].
+  - eexists. split; [left; reflexivity|]. split; [reflexivity|].
+    intros s' i' fv [<-|[]]. left. reflexivity.
+  - reflexivity.
+  - unfold fobserve. cbn. unfold sset. rewrite String.eqb_refl. intros E. apply Hne. symmetry. exact E.
+Qed.
